@@ -71,7 +71,22 @@ def main():
             shutil.rmtree(os.path.join(core.CACHE, "harness", core.sha(wt, cfg)), ignore_errors=True)
         sh("git -C /repo worktree remove --force %s; git -C /repo branch -D wt_seed_%s" % (wt, name))
         shutil.rmtree(coqcopy, ignore_errors=True)
-    json.dump(res, open(os.path.join(d, "result.json"), "w"), indent=1)
+    # keep the verdicts of earlier runs of OTHER checks; a re-run of the same check replaces its entry, the previous
+    # verdict moving to "earlier" (the tables in DESIGN.md say "MISSED at first, caught after strengthening")
+    rp = os.path.join(d, "result.json")
+    if os.path.exists(rp):
+        try:
+            old = json.load(open(rp))
+            for pid, v in old.get("checks", {}).items():
+                if pid not in res["checks"]:
+                    res["checks"][pid] = v
+                elif v.get("caught") != res["checks"][pid].get("caught"):
+                    res["checks"][pid].setdefault("earlier", []).append({"caught": v.get("caught"), "repo_head": old.get("repo_head"), "verif": old.get("verif_head")})
+                    res["checks"][pid]["earlier"] += v.get("earlier", [])
+        except Exception:
+            pass
+    res["verif_head"] = sh("git -C %s rev-parse --short HEAD" % ROOT).stdout.strip()
+    json.dump(res, open(rp, "w"), indent=1)
     return 0
 
 
